@@ -2,7 +2,7 @@ from typing import Any, Protocol
 
 import httpx
 
-from .auth.base import BaseAuth
+from .auth.base import BaseAuth, set_header
 from .exceptions import HTTPError
 
 
@@ -130,11 +130,13 @@ class HttpxTransport:
 
         # 1. Apply transport-level default headers
         if self._default_headers:
-            prepared_headers.update(self._default_headers)
+            for name, value in self._default_headers.items():
+                set_header(prepared_headers, name, value)
 
         # 2. Merge headers passed specifically for this request (overriding transport defaults)
         if "headers" in current_request_kwargs and isinstance(current_request_kwargs["headers"], dict):
-            prepared_headers.update(current_request_kwargs["headers"])
+            for name, value in current_request_kwargs["headers"].items():
+                set_header(prepared_headers, name, value)
 
         # 3. Apply authentication plugin or bearer token (which can further modify headers)
         # We pass a temporary request_args dict containing only the headers to the auth plugin,
@@ -163,7 +165,7 @@ class HttpxTransport:
                 pass  # Or raise an error, or log a warning.
         elif self._bearer_token is not None:
             # If no auth plugin, but bearer token is present, add/overwrite Authorization header.
-            prepared_headers["Authorization"] = f"Bearer {self._bearer_token}"
+            set_header(prepared_headers, "Authorization", f"Bearer {self._bearer_token}")
 
         return prepared_headers
 
